@@ -278,7 +278,7 @@ def shard(idx, n, tier, seed, count):
 
 
 def run(tier, seed, scale=1.0):
-    count = int((12 if tier == "quick" else 400) * scale)
+    count = int((40 if tier == "quick" else 600) * scale)
     return common.run_shards(shard, 16, tier=tier, seed=seed, count=count)
 
 
